@@ -8,7 +8,7 @@ From SV Require Import DB.Model DB.Proofs DB.Invariants DB.Visibility DB.Channel
 Open Scope nat_scope.
 
 (* a committing transaction between apply_writes and its root store *)
-Definition pending (a : actor) : bool := match a_pc a with PCommitIdx | PRootLocked => true | _ => false end.
+Definition pending (a : actor) : bool := match a_pc a with PCommitIdx | PRootLocked | PCommitLoaded => true | _ => false end.
 
 Record pv := mkPV { p_locks : list nat; p_writes : list nat; p_ents : list tver; p_nt : list N }.
 
@@ -409,7 +409,7 @@ Proof.
     rewrite map_upd.
     assert (Hva : wview a = (None, [])) by (unfold wview, pview, pending, retired; rewrite H0; reflexivity).
     rewrite Hva in Hview.
-    assert (Hva' : wview (mkA (a_id a) (a_kind a) PCommitIdx (a_locks a) es nt []) =
+    assert (Hva' : wview (mkA (a_id a) (a_kind a) PCommitIdx (a_locks a) es nt [] (a_cur a)) =
                    (Some (mkPV (a_locks a) wr es nt), [])).
     { unfold wview, pview, pending, retired, writes_of. step_simpl. rewrite H. reflexivity. }
     rewrite Hva'.
@@ -444,7 +444,7 @@ Proof.
     assert (Hva : wview a = (Some (mkPV (a_locks a) (writes_of a) (a_entries a) (a_notify a)), [])).
     { unfold wview, pview, pending, retired. rewrite H0. reflexivity. }
     rewrite Hva in Hview.
-    assert (Hva' : wview (mkA (a_id a) (a_kind a) PRootStored (a_locks a) r (a_notify a) closing) =
+    assert (Hva' : wview (mkA (a_id a) (a_kind a) PRootStored (a_locks a) r (a_notify a) closing (a_cur a)) =
                    (None, a_notify a ++ closing)).
     { unfold wview, pview, pending, retired. step_simpl. reflexivity. }
     rewrite Hva'.
@@ -497,7 +497,7 @@ Qed.
 Theorem WInv_init ntab actors : WInv (init_st ntab actors).
 Proof.
   unfold WInv, init_st. cbn [s_root s_closed s_nextw s_actors].
-  assert (Hv : forall j q ret, nth_error (map wview (map (fun ik : N * kind => mkA (fst ik) (snd ik) PStart [] [] [] []) actors)) j
+  assert (Hv : forall j q ret, nth_error (map wview (map (fun ik : N * kind => mkA (fst ik) (snd ik) PStart [] [] [] [] []) actors)) j
                                = Some (q, ret) -> q = None /\ ret = []).
   { intros j q ret H. rewrite map_map in H. apply nth_error_In in H. apply in_map_iff in H.
     destruct H as [[tid k] [E _]]. unfold wview, pview, pending, retired in E. cbn [a_pc] in E.
